@@ -149,6 +149,49 @@ def final_spins(reaction):
     return [float(s.particle.spin) for _, s in sorted(t0.final_states.items())]
 
 
+# ---- "opposite helicity" classification, written from the documentation of
+# ampform.helicity.decay.is_opposite_helicity_state and from nothing else: of the two children of a node,
+# the OPPOSITE-helicity state is the one whose sorted tuple of attached final-state ids is
+# lexicographically larger; the other one is the helicity state (so the child that contains the lowest
+# final-state id, in particular state 0, is never the opposite one).  Uses only the qrules Topology.
+
+
+def own_attached_final_state(topology, edge_id):
+    edge = topology.edges[edge_id]
+    if edge.ending_node_id is None:
+        return (edge_id,)
+    out = []
+    for child in topology.get_edge_ids_outgoing_from_node(edge.ending_node_id):
+        out.extend(own_attached_final_state(topology, child))
+    return tuple(sorted(out))
+
+
+def own_sibling(topology, edge_id):
+    node = topology.edges[edge_id].originating_node_id
+    others = [e for e in topology.get_edge_ids_outgoing_from_node(node) if e != edge_id]
+    assert len(others) == 1, (edge_id, others)
+    return others[0]
+
+
+def own_is_opposite(topology, edge_id):
+    mine = own_attached_final_state(topology, edge_id)
+    other = own_attached_final_state(topology, own_sibling(topology, edge_id))
+    return mine > other
+
+
+def own_opposite_isobar(topology):
+    """Does some DECAYING child of some node of this topology count as the opposite-helicity state?"""
+    inner = [e for e, edge in topology.edges.items()
+             if edge.ending_node_id is not None and edge.originating_node_id is not None]
+    return any(own_is_opposite(topology, e) for e in inner)
+
+
+def helicity_only_subset(name):
+    """Indices of the topologies of a corpus reaction all of whose isobars are helicity states (own rule)."""
+    groups = split_topologies(reactions.load(name))
+    return [i for i, g in enumerate(groups) if not own_opposite_isobar(g[0].topology)], len(groups)
+
+
 class Model:
     """A formulated model with its two lambdified functions (cached per process)."""
 
@@ -198,14 +241,9 @@ class Model:
         self.used_kin = [s for s in self.kin_symbols if s in expr.free_symbols]
         self.int_fn = sp.lambdify([*self.used_kin, *self.par_symbols], expr, modules="numpy", cse=True)
         self.theta_idx = [i for i, s in enumerate(self.kin_symbols) if str(s).startswith("theta")]
-        # diagnostics only: per topology, is some decaying child the "opposite helicity" state?
-        from ampform.helicity.decay import is_opposite_helicity_state
-
-        self.opposite_isobar = []
-        for group in split_topologies(reaction):
-            t = group[0].topology
-            inner = [e for e, edge in t.edges.items() if edge.ending_node_id is not None and e not in t.incoming_edge_ids]
-            self.opposite_isobar.append(any(is_opposite_helicity_state(t, e) for e in inner))
+        # per topology: is some decaying child the "opposite helicity" state?  Decided by the harness' OWN
+        # rule (never by /repo's function: a change of that function must not re-classify the cases)
+        self.opposite_isobar = [own_opposite_isobar(g[0].topology) for g in split_topologies(reaction)]
 
     def kinematics(self, P):
         """P: (N, n, 4) -> list of arrays (one per kinematic variable)."""
@@ -421,6 +459,64 @@ def wigner_checks():
             fails.append(("wignerD_identity", f"j={j}"))
     return n, fails
 
+# ----------------------------------------------------------------------------- opposite-helicity rule tie
+
+
+def _rule_topologies():
+    """All isobar topologies with 2..5 leaves x all relabellings of the final-state ids."""
+    import itertools
+
+    from qrules.topology import create_isobar_topologies
+
+    for n in range(2, 6):
+        for it, topo in enumerate(create_isobar_topologies(n)):
+            finals = sorted(topo.outgoing_edge_ids)
+            for perm in itertools.permutations(finals):
+                yield n, it, list(perm), topo.relabel_edges(dict(zip(finals, perm)))
+
+
+def _rule_disagreements(topo):
+    from ampform.helicity.decay import is_opposite_helicity_state
+
+    out = []
+    for e, edge in topo.edges.items():
+        if edge.originating_node_id is None:
+            continue
+        theirs = bool(is_opposite_helicity_state(topo, e))
+        mine = own_is_opposite(topo, e)
+        sib = own_sibling(topo, e)
+        if theirs != mine:
+            out.append((e, f"edge {e} (final states {own_attached_final_state(topo, e)}, sibling "
+                           f"{own_attached_final_state(topo, sib)}): is_opposite_helicity_state={theirs}, "
+                           f"documented rule={mine}"))
+    return out
+
+
+def opposite_rule_checks():
+    """ampform's is_opposite_helicity_state against the documented rule, exhaustively for <= 5 leaves."""
+    n_checked, fails = 0, []
+    for n, it, perm, topo in _rule_topologies():
+        n_checked += 1
+        bad = _rule_disagreements(topo)
+        if bad and not fails:
+            fails.append(("opposite_helicity_rule_disagrees",
+                          f"{n}-body isobar topology #{it} with final-state ids relabelled to {perm}: {bad[0][1]}",
+                          {"kind": "opposite_rule", "n": n, "topology_index": it, "permutation": perm,
+                           "edge": bad[0][0]}))
+    return n_checked, fails
+
+
+def replay_opposite_rule(case):
+    import itertools  # noqa: F401
+
+    from qrules.topology import create_isobar_topologies
+
+    topo = create_isobar_topologies(case["n"])[case["topology_index"]]
+    finals = sorted(topo.outgoing_edge_ids)
+    topo = topo.relabel_edges(dict(zip(finals, case["permutation"])))
+    bad = _rule_disagreements(topo)
+    return bool(bad), (bad[0][1] if bad else "rules agree on this topology")
+
 # ----------------------------------------------------------------------------- plan
 
 
@@ -446,14 +542,23 @@ def plan(tier):
                 cases += [(n, t, "none") for t in tops]
     # pairs of topologies in which every isobar is the "helicity state" (not the opposite-helicity one):
     # sensitive to the top-level conventions AND invariant on the current tree
-    cases += [("jpsi_3pi_hel", "1+2", "none"), ("lc_pkpi_hel", "1+2", "axisangle")]
+    # The subsets are computed with the harness' own rule; they are must-hold cases with their own signatures
+    # (..._helicity_isobars_only_not_invariant), never folded into the known multi-topology finding.
+    spinless_multi = ["jpsi_3pi_hel", "d0_k3pi_hel"] + (["jpsi_3pi_can", "d0_kkk_hel", "d0_kkk_can"]
+                                                         if tier == "thorough" else [])
+    for n in spinless_multi:
+        if n in reactions.names():
+            idx, ntop = helicity_only_subset(n)
+            if len(idx) >= 2:
+                cases.append((n, "+".join(map(str, idx)), "none"))
+    cases.append(("lc_pkpi_hel", "+".join(map(str, helicity_only_subset("lc_pkpi_hel")[0])), "axisangle"))
     # multi-topology, unaligned
     multi = ["jpsi_3pi_hel", "d0_kkk_hel"]
     if tier == "thorough":
         multi += ["d0_k3pi_hel", "jpsi_3pi_can", "d0_kkk_can", "lc_pkpi_hel", "jpsi_ksp_hel"]
     cases += [(n, None, "none") for n in multi if n in reactions.names()]
     # multi-topology, aligned
-    cases.append(("jpsi_3pi_hel", "1+2", "dpd1"))
+    cases.append(("jpsi_3pi_hel", "+".join(map(str, helicity_only_subset("jpsi_3pi_hel")[0])), "dpd1"))
     aligned = [("jpsi_3pi_hel", "axisangle"), ("jpsi_3pi_hel", "dpd1"), ("lc_pkpi_hel", "dpd1")]
     if tier == "thorough":
         aligned += [("lc_pkpi_hel", "axisangle"), ("jpsi_ksp_hel", "axisangle"), ("jpsi_ksp_hel", "dpd1"),
@@ -472,6 +577,10 @@ def main():
             n, fails = wigner_checks()
             print(json.dumps({"still_fails": bool(fails), "detail": fails[:5]}))
             return
+        if case.get("kind") == "opposite_rule":
+            bad, detail = replay_opposite_rule(case)
+            print(json.dumps({"still_fails": bad, "detail": detail}))
+            return
         bad, detail = replay_event(case)
         print(json.dumps({"still_fails": bad, "detail": detail}))
         return
@@ -482,8 +591,10 @@ def main():
     nproc = min(len(jobs), int(os.environ.get("C04_PROCS", "14")))
     with mp.get_context("fork").Pool(nproc) as pool:
         async_w = pool.apply_async(wigner_checks)
+        async_r = pool.apply_async(opposite_rule_checks)
         results = pool.map(run_model_case, jobs, chunksize=1)
         n_w, w_fails = async_w.get()
+        n_r, r_fails = async_r.get()
     failures, samples, kinds, table = [], [], {}, []
     evals = distinct = skipped = 0
     for r in results:
@@ -500,13 +611,18 @@ def main():
         failures.append({"signature": sig, "what": f"sympy Rotation.D does not satisfy a hypothesis of Rot.v: {sig} {what}",
                          "case": {"kind": "wignerD", "detail": what}})
     kinds["wignerD_exact_identities"] = n_w
+    for sig, what, case in r_fails:
+        failures.insert(0, {"signature": sig, "what": "ampform.helicity.decay.is_opposite_helicity_state differs from "
+                            "its documented rule (lexicographic order of the sorted attached final-state ids): " + what,
+                            "case": case})
+    kinds["opposite_rule_topologies_exhaustive_le5"] = n_r
     # one (the first = smallest model) failure per signature
     seen, firsts = set(), []
     for f in failures:
         if f["signature"] not in seen:
             seen.add(f["signature"])
             firsts.append(f)
-    print(json.dumps({"evaluations": evals + n_w, "distinct": distinct, "samples": samples, "kinds": kinds,
+    print(json.dumps({"evaluations": evals + n_w + n_r, "distinct": distinct, "samples": samples, "kinds": kinds,
                       "skipped_illconditioned": skipped, "table": table, "failures": firsts}))
 
 
